@@ -409,7 +409,7 @@ theorem updExtend_inv12 {s s' : State} {k size : Nat} {ds : List Int}
   · cases h
 
 theorem close_inv12 {s s' : State} {fin : Bool} {k : Nat} {c : Caller} {X : Nat} {per : List (Nat × Nat)}
-    (h : close s fin k c X per = .ok s') (hi : Inv12 s) : Inv12 s' := by
+    {rates : List (Nat × Nat × Nat)} (h : close s fin k c X per rates = .ok s') (hi : Inv12 s) : Inv12 s' := by
   unfold close at h
   split at h
   · cases h
@@ -425,7 +425,7 @@ theorem close_inv12 {s s' : State} {fin : Bool} {k : Nat} {c : Caller} {X : Nat}
 
 /-- `close` removes both nodes of the allocation -/
 theorem close_removes {s s' : State} {fin : Bool} {k : Nat} {c : Caller} {X : Nat} {per : List (Nat × Nat)}
-    (h : close s fin k c X per = .ok s') : s'.allocs k = none ∧ s'.cps k = none := by
+    {rates : List (Nat × Nat × Nat)} (h : close s fin k c X per rates = .ok s') : s'.allocs k = none ∧ s'.cps k = none := by
   unfold close at h
   split at h
   · cases h
